@@ -144,6 +144,93 @@ def _expand(model: Model, f: Func, call: ast.Call, counter: list):
     return g, prologue, body or [ast.copy_location(ast.Pass(), call)]
 
 
+def _tail_returns(stmts) -> int:
+    """number of `return` statements in tail position of a statement list (its last statement, recursively through a final if/elif/else
+    whose branches all end in return / raise); -1 when the list does not end every path that way"""
+    if not stmts:
+        return -1
+    last = stmts[-1]
+    if isinstance(last, ast.Return):
+        return 1
+    if isinstance(last, ast.Raise):
+        return 0
+    if isinstance(last, ast.If) and last.orelse:
+        a, b = _tail_returns(last.body), _tail_returns(last.orelse)
+        return -1 if a < 0 or b < 0 else a + b
+    return -1
+
+
+def _returns_to_assign(stmts, targets, at):
+    out = list(stmts)
+    last = out[-1]
+    if isinstance(last, ast.Return):
+        new = ast.copy_location(ast.Assign(targets=copy.deepcopy(targets), value=last.value), last)
+        ast.fix_missing_locations(new)
+        out[-1] = new
+    elif isinstance(last, ast.If):
+        last.body = _returns_to_assign(last.body, targets, at)
+        last.orelse = _returns_to_assign(last.orelse, targets, at)
+    return out
+
+
+def _has_own_return(s):
+    todo = [s]
+    while todo:
+        n = todo.pop()
+        if isinstance(n, ast.Return):
+            return True
+        if isinstance(n, (ast.FunctionDef, ast.AsyncFunctionDef, ast.Lambda, ast.ClassDef)) and n is not s:
+            continue
+        todo.extend(ast.iter_child_nodes(n))
+    return False
+
+
+def _always_returns(stmts):
+    if not stmts:
+        return False
+    last = stmts[-1]
+    if isinstance(last, ast.Return):
+        return True
+    if isinstance(last, ast.If) and last.orelse:
+        return _always_returns(last.body) and _always_returns(last.orelse)
+    return False
+
+
+def _without_early_returns(stmts, cont=()):
+    """`stmts` followed by `cont`, where a bare `return` in stmts skips everything that follows, rewritten without any return:
+           if c: A; return          if c: A
+           B                  ->    else: B
+    (guard-clause style back to nested branches).  None when a return sits inside a loop / try / with, or returns a value."""
+    out = []
+    stmts = list(stmts) + list(cont)       # (the continuation is itself freed of returns)
+    cont = ()
+    for i, s in enumerate(stmts):
+        if isinstance(s, ast.Return):
+            if s.value is not None and not (isinstance(s.value, ast.Constant) and s.value.value is None):
+                return None
+            return out
+        if isinstance(s, ast.If) and _has_own_return(s):
+            rest = stmts[i + 1:] + list(cont)
+            if _always_returns(s.body) and not _has_own_return_block(s.orelse):
+                b, o = _without_early_returns(s.body), _without_early_returns(s.orelse, rest)
+            elif s.orelse and _always_returns(s.orelse) and not _has_own_return_block(s.body):
+                b, o = _without_early_returns(s.body, rest), _without_early_returns(s.orelse)
+            else:
+                b, o = _without_early_returns(s.body, copy.deepcopy(rest)), _without_early_returns(s.orelse, rest)
+            if b is None or o is None:
+                return None
+            new = ast.copy_location(ast.If(test=s.test, body=b or [ast.copy_location(ast.Pass(), s)], orelse=o), s)
+            return out + [new]
+        if _has_own_return(s):
+            return None
+        out.append(s)
+    return out + list(cont)
+
+
+def _has_own_return_block(stmts):
+    return any(_has_own_return(s) for s in stmts)
+
+
 def _pure_arg(e) -> bool:
     """an argument that may be duplicated / moved: names, attributes, constants, subscripts and arithmetic of those, len(...)"""
     return all(isinstance(x, (ast.Name, ast.Attribute, ast.Constant, ast.Subscript, ast.BinOp, ast.UnaryOp, ast.operator, ast.unaryop, ast.expr_context,
@@ -170,8 +257,21 @@ class _ExprInline(ast.NodeTransformer):
         params = g.params()
         args = ([ast.Name(id="self", ctx=ast.Load())] if is_method else []) + list(n.args)
         defaults = g.node.args.defaults
-        if len(args) > len(params) or len(args) < len(params) - len(defaults) or not all(_pure_arg(a) for a in args):
+        if len(args) > len(params) or len(args) < len(params) - len(defaults):
             return n
+        if not all(_pure_arg(a) for a in args):
+            # any argument may be put in when the body is a chain of conversions rooted at the one parameter: `return S.cpu().numpy()`
+            root = body[0].value
+            while True:
+                if isinstance(root, ast.Call) and isinstance(root.func, ast.Attribute) and all(_pure_arg(a) for a in root.args) and not root.keywords:
+                    root = root.func.value
+                elif isinstance(root, ast.Attribute):
+                    root = root.value
+                else:
+                    break
+            if not (len(params) == 1 and isinstance(root, ast.Name) and root.id == params[0]
+                    and sum(1 for x in ast.walk(body[0].value) if isinstance(x, ast.Name) and x.id == params[0]) == 1):
+                return n
         bind = dict(zip(params, args))
         for p, dflt in zip(params[len(params) - len(defaults):], defaults):
             bind.setdefault(p, dflt)
@@ -216,13 +316,24 @@ def _inline_block(model: Model, f: Func, stmts: list, depth: int, counter: list)
                             body = body[:-1] or [ast.copy_location(ast.Pass(), s)]
                         out += pro + _inline_block(model, f, body, depth - 1, counter)
                         done = True
+                    elif all(r.value is None or (isinstance(r.value, ast.Constant) and r.value.value is None) for r in rets):
+                        # guard-clause style: the early returns become nested branches
+                        flat = _without_early_returns(body)
+                        if flat is not None:
+                            out += pro + _inline_block(model, f, flat or [ast.copy_location(ast.Pass(), s)], depth - 1, counter)
+                            done = True
             elif isinstance(s, ast.Assign) and isinstance(s.value, ast.Call):
                 ex = _expand(model, f, s.value, counter)
                 if ex is not None:
                     g, pro, body = ex
                     rets = _returns(g)
                     # value helper: a single `return <expr>` as its last statement
-                    if len(rets) == 1 and rets[0] is g.node.body[-1] and rets[0].value is not None and isinstance(body[-1], ast.Return):
+                    if len(rets) > 1 and _tail_returns(g.node.body) == len(rets) and all(r.value is not None for r in rets):
+                        # every return ends a branch of a tail if/elif/else chain (the other branches raise): `x = <expr>` in its place
+                        inner = _returns_to_assign(body, s.targets, s)
+                        out += pro + _inline_block(model, f, inner, depth - 1, counter)
+                        done = True
+                    elif len(rets) == 1 and rets[0] is g.node.body[-1] and rets[0].value is not None and isinstance(body[-1], ast.Return):
                         inner, rv = body[:-1], body[-1].value
                         # a returned callee local takes the caller's target name when that name does not occur in the inlined body
                         if len(s.targets) == 1:
@@ -259,6 +370,67 @@ def _inline_block(model: Model, f: Func, stmts: list, depth: int, counter: list)
     return out
 
 
+def _inline_local_closures(node, counter):
+    """`def one(*size): return tn.ones(size, dtype=dtype, device=device)` defined in the function's own body and called in it: each call
+    is replaced by the returned expression with the arguments put in.  A closure reads its free variables when it is *called*, so the
+    expression evaluated at the call site is the same computation.  Conditions: defined once at the top level of the body, never re-bound
+    or passed around (every use is a call), one `return <expr>`, no decorator / default / keyword use, arguments free of calls."""
+    cands = {}
+    for st in node.body:
+        if isinstance(st, ast.FunctionDef) and not st.decorator_list and not st.args.defaults and not st.args.kwonlyargs and not st.args.kwarg:
+            body = [x for x in st.body if not (isinstance(x, ast.Expr) and isinstance(x.value, ast.Constant) and isinstance(x.value.value, str))]
+            if len(body) == 1 and isinstance(body[0], ast.Return) and body[0].value is not None:
+                cands[st.name] = (st, body[0].value)
+    if not cands:
+        return
+    stores = {}
+    for n in ast.walk(node):
+        if isinstance(n, ast.Name) and isinstance(n.ctx, (ast.Store, ast.Del)):
+            stores[n.id] = stores.get(n.id, 0) + 1
+        if isinstance(n, ast.FunctionDef) and n is not node:
+            stores[n.name] = stores.get(n.name, 0) + 1
+    calls = {id(c.func) for c in ast.walk(node) if isinstance(c, ast.Call) and isinstance(c.func, ast.Name)}
+    for nm in list(cands):
+        st, expr = cands[nm]
+        loads = [n for n in ast.walk(node) if isinstance(n, ast.Name) and n.id == nm and isinstance(n.ctx, ast.Load)]
+        own = {id(x) for x in ast.walk(st)}
+        if stores.get(nm) != 1 or any(id(n) not in calls for n in loads) or any(id(n) in own for n in loads):
+            del cands[nm]
+    if not cands:
+        return
+    done = set()
+
+    class R(ast.NodeTransformer):
+        def visit_Call(s, n):
+            s.generic_visit(n)
+            if isinstance(n.func, ast.Name) and n.func.id in cands:
+                st, expr = cands[n.func.id]
+                pos = [a.arg for a in st.args.posonlyargs + st.args.args]
+                if n.keywords or any(isinstance(a, ast.Starred) for a in n.args) or not all(_pure_arg(a) for a in n.args):
+                    return n
+                if len(n.args) < len(pos) or (len(n.args) > len(pos) and st.args.vararg is None):
+                    return n
+                bind = dict(zip(pos, n.args))
+                if st.args.vararg is not None:
+                    bind[st.args.vararg.arg] = ast.Tuple(elts=list(n.args[len(pos):]), ctx=ast.Load())
+                inner = {x.id for x in ast.walk(expr) if isinstance(x, ast.Name) and isinstance(x.ctx, ast.Store)}
+                if inner & {x.id for a in bind.values() for x in ast.walk(a) if isinstance(x, ast.Name)}:
+                    return n
+                counter[0] += 1
+                done.add(n.func.id)
+                return ast.copy_location(_Rename(bind).visit(copy.deepcopy(expr)), n)
+            return n
+
+        def visit_FunctionDef(s, n):
+            return n if n.name in cands else s.generic_visit(n)
+    new_body = []
+    for st in node.body:
+        new_body.append(R().visit(st))
+    node.body = new_body
+    left = {n.id for n in ast.walk(node) if isinstance(n, ast.Name) and isinstance(n.ctx, ast.Load)}
+    node.body = [st for st in node.body if not (isinstance(st, ast.FunctionDef) and st.name in done and st.name not in left)] or [ast.Pass()]
+
+
 def inlined(model: Model, f: Func, depth: int = 2) -> Func:
     """`f` with void / tail calls of private same-module helpers replaced by their bodies (a copy; `f` itself is untouched)"""
     cache = model.__dict__.setdefault("_inline_cache", {})
@@ -266,6 +438,7 @@ def inlined(model: Model, f: Func, depth: int = 2) -> Func:
     if key not in cache:
         node = copy.deepcopy(f.node)
         counter = [0]
+        _inline_local_closures(node, counter)
         node.body = _inline_block(model, f, node.body, depth, counter)
         if counter[0] == 0:
             cache[key] = f
